@@ -23,7 +23,7 @@ ASSUMPTIONS = ['helmert_exact (self-validated each shard)', 'Julian year = 365.2
                'uncertainty of a propagated parameter: sqrt(sd^2 + (sd_rate * dt)^2), as documented in Transformation.__add__']
 N = {'quick': 1500, 'thorough': 25000}
 SHARDS = {'quick': 16, 'thorough': 32}
-REQUIRED_COUNTERS = ['shipped_sets_calls', 'random_sets_calls', 'reference_epoch_cases', 'before_reference_epoch', 'leap_day_cases',
+REQUIRED_COUNTERS = ['same_label_sequences', 'shipped_sets_calls', 'random_sets_calls', 'reference_epoch_cases', 'before_reference_epoch', 'leap_day_cases',
                      'wrapper_roundtrips', 'wrapper_identity', 'negation_roundtrips', 'vcv_judged']
 D0 = datetime.date(1980, 1, 1).toordinal()
 D1 = datetime.date(2060, 12, 31).toordinal()
@@ -60,6 +60,13 @@ def rand_dated_set(ns, rnd, with_sd):
               d_rz=rnd.uniform(-0.002, 0.002))
     if rnd.random() < 0.5:
         kw = {k: round(v, 8) for k, v in kw.items()}
+    if rnd.random() < 0.5:
+        # structured sets: most parameters / rates zero (like the plate-motion model: rotation rates only; or a scale-rate
+        # only set), each non-empty pattern of zero rates is a class of its own
+        keep = rnd.sample(list(hx.P14), rnd.randint(1, 4))
+        if rnd.random() < 0.5:
+            keep = [rnd.choice(['d_tx', 'd_ty', 'd_tz', 'd_sc', 'd_rx', 'd_ry', 'd_rz'])] + rnd.sample(list(hx.P7), rnd.randint(0, 2))
+        kw = {k: (v if k in keep else 0.0) for k, v in kw.items()}
     sd = None
     if with_sd:
         sd = C.TransformationSD(**{k: rnd.uniform(0, 1e-3) for k in
@@ -248,6 +255,29 @@ def run_shard(spec, ctx):
         case = {'set': spec_of(t), 'epoch': str(ep), 'eclass': cls, 'xyz': c06.rand_point(rnd, 1e7),
                 'vcv': None if V is None else V.tolist()}
         judge(ns, ctx, case)
+        ctx.bucket('rate-pattern', ''.join('1' if getattr(t, 'd_' + p) else '0' for p in hx.P7))
+        if i % 3 == 0:
+            # same labels, same reference epoch, same target epoch, other parameters: back to back
+            t2 = rand_dated_set(ns, rnd, t.tf_sd is not None)
+            sp2 = spec_of(t2)
+            sp2['ref_epoch'] = str(t.ref_epoch)
+            c2 = dict(case)
+            c2['set'] = sp2
+            judge(ns, ctx, c2)
+            judge(ns, ctx, case)
+            ctx.count('same_label_sequences')
+    # shipped constants sharing labels and reference epoch, at the same epochs, interleaved
+    groups = {}
+    for k, v in cat.items():
+        groups.setdefault((str(v.from_datum), str(v.to_datum), str(v.ref_epoch)), []).append(k)
+    for g in [g for g in groups.values() if len(g) > 1]:
+        for j in range(4):
+            ep, cls = rand_epoch(rnd, cat[g[0]].ref_epoch)
+            xyz = c06.rand_point(rnd, 1e7)
+            order = list(g) + list(reversed(g))
+            for name in order:
+                judge(ns, ctx, {'set': name, 'epoch': str(ep), 'eclass': cls, 'xyz': xyz, 'vcv': None})
+            ctx.count('same_label_sequences')
     for i in range(spec['n'] // 3):
         ep, cls = rand_epoch(rnd, datetime.date(2020, 1, 1))
         case = {'wrapper': True, 'epoch': str(ep), 'xyz': c06.rand_point(rnd, 1e7) if i % 2 else
